@@ -615,6 +615,16 @@ def chars_next(it, args, callee):
     return Some(c)
 
 
+@pattern(r"^<(std::str::|core::str::)?(CharIndices|Chars)<'_> as Iterator>::nth$")
+def chars_nth(it, args, callee):
+    n = it.concretize(args[1])
+    nxt = char_indices_next if 'CharIndices' in callee else chars_next
+    for _ in range(int(n)):
+        if nxt(it, [args[0]], callee) is NONE:
+            return NONE
+    return nxt(it, [args[0]], callee)
+
+
 def parse_i64_concrete(bs):
     try:
         t = bytes(bs).decode('utf-8')
@@ -1289,9 +1299,9 @@ def dec_from_str(it, args, callee):
         if r == 'err':
             return Err(Opaque('rust_decimal::Error'))
         return Ok(r)
-    if len(s.b) >= 18:
-        raise OutsideModel('symbolic Decimal::from_str of 18+ bytes')
-    # symbolic bytes: fork on each byte's class
+    # symbolic bytes: fork on each byte's class.  Inputs of 18+ bytes take rust_decimal's overflow-aware path: a mantissa
+    # beyond 96 bits is an error before the point and is rounded after it (rounding is outside the model), exactly as in
+    # dec_from_str_concrete above.
     bs = s.b
     n = len(bs)
     i = 0
@@ -1317,8 +1327,14 @@ def dec_from_str(it, args, callee):
     while i < n:
         c = bs[i]
         if is_(c, 0x30, 0x39):
+            if point and scale >= 28:
+                raise OutsideModel('Decimal::from_str of a literal that needs rounding')
             dig = (c - 0x30) if isinstance(c, int) else z3.BV2Int(c - z3.BitVecVal(0x30, 8), False)
             data = data * 10 + dig
+            if len(ints) + len(fracs) >= 28 and not fits96(it, data):
+                if not point:
+                    return Err(Opaque('rust_decimal::Error'))
+                raise OutsideModel('Decimal::from_str of a literal that needs rounding')
             (fracs if point else ints).append(c)
             if point:
                 scale += 1
@@ -1667,7 +1683,12 @@ def dec_from_i128_with_scale(it, args, callee):
     num, scale = args
     scale = it.concretize(scale, limit=32)
     m = num if not is_sym(num) else z3.BV2Int(num, True)
-    ok = scale <= 28 and fits96(it, m)
+    if is_sym(num):
+        # decide the range in the bit-vector domain (a bv2int round trip makes z3 give up)
+        w = num.size()
+        ok = scale <= 28 and it.truth(z3.And(num <= z3.BitVecVal(MAX96, w), num >= z3.BitVecVal(-MAX96, w)))
+    else:
+        ok = scale <= 28 and fits96(it, m)
     if 'try_' in callee:
         return Ok(Dec(m, scale)) if ok else Err(Opaque('rust_decimal::Error'))
     if not ok:
